@@ -57,7 +57,24 @@ def _P(depth):
         st.tuples(sub, S_nonzero).map(lambda t: ["div", t[0], t[1]]),
         sub.map(lambda a: ["sub", a, a]),          # exact cancellation
         sub.map(lambda a: ["add", a, ["neg", a]]),  # exact cancellation
+        st.tuples(st.sampled_from(["add", "sub"]), sub).map(lambda t: ["same", t[0], t[1]]),   # same object twice
+        st.tuples(sub, sub).map(lambda t: ["add", t[0], t[1]]),
+        st.tuples(st.sampled_from(["add", "sub"]), leaf, _bigsum(leaf)).map(lambda t: [t[0], t[1], t[2]]),
+        st.tuples(st.sampled_from(["add", "sub"]), _bigsum(leaf), leaf).map(lambda t: [t[0], t[1], t[2]]),
     )
+
+
+def _fold(terms):
+    t = terms[0]
+    for op, x in terms[1:]:
+        t = [op, t, x]
+    return t
+
+
+def _bigsum(leaf):
+    """a long sum of 3..7 small terms (many distinct keys)"""
+    return st.tuples(leaf, st.lists(st.tuples(st.sampled_from(["add", "add", "sub"]), leaf), min_size=2, max_size=6)).map(
+        lambda t: _fold([t[0]] + [list(x) for x in t[1]]))
 
 
 def _E(depth):
@@ -67,21 +84,28 @@ def _E(depth):
     if depth == 0:
         return leaf
     sub = _E(depth - 1)
+    small = _E(0)
     psub = _P(depth - 1)
+    binop = st.sampled_from(["add", "sub"])
     return st.one_of(
         leaf,
         st.tuples(psub, psub).map(lambda t: ["mul", t[0], t[1]]),
+        st.tuples(psub, psub).map(lambda t: ["mul", t[0], t[1]]),
         psub.map(lambda a: ["pow2", a]),
-        st.tuples(sub, sub).map(lambda t: ["add", t[0], t[1]]),
-        st.tuples(sub, S).map(lambda t: ["add", t[0], t[1]]),
-        st.tuples(S, sub).map(lambda t: ["add", t[0], t[1]]),
-        st.tuples(sub, sub).map(lambda t: ["sub", t[0], t[1]]),
-        st.tuples(sub, S).map(lambda t: ["sub", t[0], t[1]]),
-        st.tuples(S, sub).map(lambda t: ["sub", t[0], t[1]]),
+        st.tuples(binop, sub, sub).map(lambda t: [t[0], t[1], t[2]]),
+        st.tuples(binop, sub, sub).map(lambda t: [t[0], t[1], t[2]]),
+        st.tuples(binop, small, _bigsum(small)).map(lambda t: [t[0], t[1], t[2]]),   # short (op) long sum
+        st.tuples(binop, _bigsum(small), small).map(lambda t: [t[0], t[1], t[2]]),   # long sum (op) short
+        st.tuples(binop, _bigsum(small), _bigsum(small)).map(lambda t: [t[0], t[1], t[2]]),
+        st.tuples(binop, small, sub).map(lambda t: [t[0], t[1], t[2]]),      # short (op) long
+        st.tuples(binop, sub, small).map(lambda t: [t[0], t[1], t[2]]),      # long (op) short
+        st.tuples(binop, sub, S).map(lambda t: [t[0], t[1], t[2]]),
+        st.tuples(binop, S, sub).map(lambda t: [t[0], t[1], t[2]]),
         sub.map(lambda a: ["neg", a]),
         st.tuples(sub, S).map(lambda t: ["mul", t[0], t[1]]),
         st.tuples(S, sub).map(lambda t: ["mul", t[0], t[1]]),
         st.tuples(sub, S_nonzero).map(lambda t: ["div", t[0], t[1]]),
+        st.tuples(binop, sub).map(lambda t: ["same", t[0], t[1]]),          # x (op) x with the SAME object twice
         sub.map(lambda a: ["sub", a, a]),
         st.tuples(psub, psub).map(lambda t: ["sub", ["mul", t[0], t[1]], ["mul", t[1], t[0]]]),  # mirrored
     )
@@ -147,6 +171,9 @@ def ref_eval(t, pv, ev):
     if op == "pow2":
         k, v, m = ref_eval(t[1], pv, ev)
         return "E", float(np.dot(v, v)), m * m
+    if op == "same":
+        k, v, m = ref_eval(t[2], pv, ev)
+        return k, (v + v if t[1] == "add" else v - v), 2 * m
     ka, va, ma = ref_eval(t[1], pv, ev)
     kb, vb, mb = ref_eval(t[2], pv, ev)
     if op == "add":
@@ -183,6 +210,8 @@ def has_interesting(t):
         return True
     if t[0] == "sub" and t[1] == t[2]:
         return True
+    if t[0] == "same":
+        return True
     if t[0] == "add" and t[2][0] == "neg" and t[2][1] == t[1]:
         return True
     return any(has_interesting(x) for x in t[1:] if isinstance(x, list))
@@ -200,6 +229,8 @@ def _kind(t):
         return "E"
     if op in ("neg", "div"):
         return _kind(t[1])
+    if op == "same":
+        return _kind(t[2])
     ka, kb = _kind(t[1]), _kind(t[2])
     if op == "mul":
         if ka == "P" and kb == "P":
@@ -246,6 +277,9 @@ class Builder(object):
         if op == "n":
             return t[1]
         operands = [self.build(x) for x in t[1:] if isinstance(x, list)]
+        if op == "same":
+            operands = [operands[0], operands[0]]
+            op = t[1]
         before = [snapshot(o) for o in operands]
         if op == "neg":
             res = -operands[0]
@@ -265,7 +299,7 @@ class Builder(object):
         if before != after:
             self.ctx.fail("operand-mutated:%s" % op, "operation %s altered one of its operands" % op)
         for o in operands:
-            if res is o:
+            if res is o and not isinstance(o, (int, float)):
                 self.ctx.fail("result-aliases-operand:%s" % op, "operation %s returned one of its operands" % op)
         return res
 
